@@ -5,6 +5,7 @@ package world
 
 import (
 	"context"
+	"crypto/tls"
 	"fmt"
 	"hash/fnv"
 	"net"
@@ -67,10 +68,11 @@ type Config struct {
 	Peers                             []proxy.PeerConfig
 	Tokens                            []string
 	PreparedCache                     proxycore.PreparedCache
-	PCT                               int   // >0: priority-based task choice with that many priority change points (PCT, Burckhardt et al. 2010)
-	AuthUser, AuthPass                string // if set, the backend nodes demand password authentication and the proxy is configured with these credentials
-	MaxStreams                        int16 // tuning knob: stream ids per backend connection (0 = the shipped 2048)
-	MaxMessages                       int   // tuning knob: length of a connection's write queue (0 = the shipped 1024)
+	PCT                               int         // >0: priority-based task choice with that many priority change points (PCT, Burckhardt et al. 2010)
+	ClientTLS                         *tls.Config // if set, the proxy's client-facing listener is a TLS listener with this configuration
+	AuthUser, AuthPass                string      // if set, the backend nodes demand password authentication and the proxy is configured with these credentials
+	MaxStreams                        int16       // tuning knob: stream ids per backend connection (0 = the shipped 2048)
+	MaxMessages                       int         // tuning knob: length of a connection's write queue (0 = the shipped 1024)
 	TweakProxy                        func(*proxy.Config)
 }
 
@@ -500,7 +502,11 @@ func (w *World) StartProxy(bind string, contact []string, tweak func(*proxy.Conf
 		// whatever the embedding program does after Connect/Listen returned is ordered after them
 		simrt.RaceRelease(unsafe.Pointer(&pi.sync))
 		pi.Booted = true
-		pi.ServeErr = p.Serve(l)
+		var serveOn net.Listener = l
+		if w.Cfg.ClientTLS != nil {
+			serveOn = tls.NewListener(l, w.Cfg.ClientTLS) // what proxy.Run does for --proxy-cert-file / --proxy-key-file
+		}
+		pi.ServeErr = p.Serve(serveOn)
 		pi.Served = true
 	})
 	return pi
